@@ -149,6 +149,7 @@ def make@@():
         v: int = Field(ge=0, default=0)
         nxt: Optional['Local'] = None
         more: List['Local'] = Field(default_factory=list)
+        lines: List['Later@@'] = Field(default_factory=list)
     return Local
 
 
@@ -168,11 +169,12 @@ def build_s3():
 
 
 @ob('first-parse/local-class', marks=['preempted'], budget=(150, 900), per_path=(30, 60),
-    bounds='two threads make the first parse of one function-local self-referencing class (its forward references are un-evaluated '
+    bounds='two threads make the first parse of one function-local self-referencing class that also names a module-level class defined later (its forward references are un-evaluated '
            'again after each resolution) on solver-picked inputs; same bounds')
 def local_class(V):
-    ins = [{'v': 1, 'nxt': {'v': 2}}, {'nxt': {'v': -1}}, {'more': [{'v': '3'}, {'nxt': {'v': 4}}]}]
-    i, j = V.pick('in0', [0, 1, 2] if V.thorough else [0]), V.pick('in1', [0, 1, 2] if V.thorough else [1, 2])
+    ins = [{'v': 1, 'nxt': {'v': 2}, 'lines': [{'v': 1}, {'v': '2'}]}, {'nxt': {'v': -1}}, {'more': [{'v': '3'}, {'nxt': {'v': 4}}]},
+           {'lines': [{'v': 5}, {'v': 6}]}]
+    i, j = V.pick('in0', [0, 1, 2, 3] if V.thorough else [0]), V.pick('in1', [0, 1, 2, 3] if V.thorough else [2, 3])
     race(V, build_s3, [lambda ns, d=ins[i]: dict(ns['Local'](**d)), lambda ns, d=ins[j]: dict(ns['Local'](**d))], 'local-class')
 
 
